@@ -9,7 +9,7 @@ from . import c01, campaign, engine, fmt
 
 LEVEL = 'other'
 PID = 'C12'
-WEIGHTS = {'rect': 0.25, 'oct': 0.3, 'share': 0.15, 'lat': 0.1, 'gp': 0.15, 'degen': 0.05}
+WEIGHTS = {'rect': 0.25, 'oct': 0.3, 'share': 0.15, 'lat': 0.1, 'gp': 0.15, 'degen': 0.05, 'selfop': 0.2, 'boxes': 0.05}
 
 AUDIT = [
     (r'\bstatic\s+mut\b', 'static mut'),
@@ -19,6 +19,7 @@ AUDIT = [
     (r'\bInstant::|\bSystemTime::|\brand::|\bRandomState\b.*iter', 'clock or random source'),
     (r'as\s+\*const\s+[^;]*\bas\s+usize|\.as_ptr\(\)\s+as\s+usize|\baddr\(\)', 'pointer-to-integer cast'),
     (r'Rc::as_ptr', 'address of an Rc'),
+    (r'\bptr::eq\s*\(|\bptr::addr_eq\s*\(|\.as_ptr\(\)\s*==', 'comparison of addresses (other than Rc::ptr_eq)'),
     (r'\bprocessed\b[^;\n]*\.(iter|drain|into_iter|keys|values)\(|for\s+\w+\s+in\s+&?\s*processed\b', 'iteration over the HashSet `processed`'),
     (r'HashMap\b', 'HashMap (iteration order is randomised)'),
     (r'\{:p\}', 'address formatting'),
@@ -99,6 +100,8 @@ def run(rep, tier, seed):
             ref[cid] = (kind, pl)
         elif ln.startswith('mt '):
             calls = int(re.search(r'calls=(\d+)', ln).group(1))
+        elif ln.startswith('mtalias '):
+            cov['aliased_operand_calls'] = int(re.search(r'calls=(\d+)', ln).group(1))
         elif ln.startswith('mtbad '):
             bad.append(ln[6:])
     if p.returncode != 0:
